@@ -9,6 +9,7 @@
   handler fail.
 -/
 import PV.Model.Surface
+import PV.Generated.C38
 namespace PV.Props.C38
 open PV.Surface
 
@@ -33,6 +34,16 @@ theorem old_run_leaks_internal_witness (c : Nat) :
     observed false .getException (.internal c) = some (.internal c) ∧
     (Exc.internal c).allowed = false := by
   simp [observed, surface, runCatch, Exc.allowed]
+
+/-- every place in the transport layer that stores into `saved_exception` (table regenerated from the
+source on every run) stores an SSHException-family object, an EOFError/socket error caught as such, or
+None — so the run() ladder modelled above is the only way an exception class gets chosen -/
+theorem all_writers_store_allowed : ∀ s ∈ PV.Generated.C38.sites, s.safe = true := by decide
+
+/-- the table is not empty and contains the run() ladder -/
+theorem run_ladder_in_table :
+    (PV.Generated.C38.sites.filter fun s => s.file == "transport.py" && s.func == "run").length = 4 := by
+  decide
 
 example : observed true .startClient (.internal 7) = some .ssh := by decide
 example : observed true .authWait .eof = some .ssh := by decide
